@@ -309,7 +309,7 @@ def scan_assumptions(text):
                     if m:
                         nm = m.group(1)
                         break
-                    m = re.search(r'assume_specification\s*(<[^>]*>)?\s*\[\s*([^\]]+)\]', lines[j])
+                    m = re.search(r'assume_specification\s*(<[^>]*>)?\s*\[\s*(.+?)\]\s*\(', lines[j])
                     if m:
                         nm = re.sub(r'\s+', '', m.group(2))
                         break
